@@ -221,6 +221,20 @@ func Effects(fn *ssa.Function, root ssa.Value, mutators map[string]bool) []Effec
 					add(cs, "mapdelete", "", in)
 					continue
 				}
+				// library functions and builtins that write through an argument
+				if idxs := externWrites(cc); len(idxs) > 0 {
+					for _, i := range idxs {
+						if i >= len(cc.Args) {
+							continue
+						}
+						cs := Chains(cc.Args[i])
+						for k := range cs {
+							cs[k].Elems = append(append([]string{}, cs[k].Elems...), "[]")
+						}
+						add(cs, "call:"+externName(cc), "", in)
+					}
+					continue
+				}
 				name := ShortCallee(cc)
 				if name == "" || !mutators[name] {
 					continue
@@ -396,4 +410,46 @@ func DeepEffects(fn *ssa.Function, root ssa.Value, mutators map[string]bool, dep
 	}
 	walk(fn, root, 0)
 	return out
+}
+
+
+// externName: "pkgpath.Name" of a statically called function (the generic origin for instantiations), or the builtin's name.
+func externName(cc *ssa.CallCommon) string {
+	if bi, ok := cc.Value.(*ssa.Builtin); ok {
+		return bi.Name()
+	}
+	f := cc.StaticCallee()
+	if f == nil {
+		return ""
+	}
+	if o := f.Origin(); o != nil {
+		f = o
+	}
+	if obj := f.Object(); obj != nil && obj.Pkg() != nil {
+		return obj.Pkg().Path() + "." + obj.Name()
+	}
+	return f.Name()
+}
+
+// writesArg: library functions (no body in the analysed program) and builtins that write into the object one of their
+// arguments refers to: name -> argument indices.
+var writesArg = map[string][]int{
+	"copy":  {0},
+	"clear": {0},
+	"maps.Copy": {0}, "maps.DeleteFunc": {0}, "maps.Insert": {0},
+	"golang.org/x/exp/maps.Copy": {0}, "golang.org/x/exp/maps.DeleteFunc": {0}, "golang.org/x/exp/maps.Clear": {0},
+	"slices.Sort": {0}, "slices.SortFunc": {0}, "slices.SortStableFunc": {0}, "slices.Reverse": {0},
+	"sort.Slice": {0}, "sort.SliceStable": {0}, "sort.Sort": {0}, "sort.Stable": {0}, "sort.Strings": {0}, "sort.Ints": {0}, "sort.Float64s": {0},
+	"encoding/json.Unmarshal": {1},
+	"sigs.k8s.io/yaml.Unmarshal": {1},
+}
+
+func externWrites(cc *ssa.CallCommon) []int {
+	if cc.IsInvoke() {
+		return nil
+	}
+	if f := cc.StaticCallee(); f != nil && len(f.Blocks) > 0 && f.Origin() == nil {
+		return nil // analysed through its body
+	}
+	return writesArg[externName(cc)]
 }
